@@ -303,89 +303,7 @@ func checkC02(p *Prog, r *Report) {
 
 	// ---- R2.6 Restart ends the generation ------------------------------------------------------
 	r.Rule("R2.6", "Restart replaces both credential pairs, resets gathering state, checklist, pair index and outstanding transactions with fresh empty values, clears the selection, deletes all candidates and re-creates the selector; every mutable collection field of Agent that is written after construction is covered by Restart.", 12)
-	rs := p.Fn("Agent.Restart$1")
-	if r.Anchor("Restart task", rs != nil) {
-		want := map[string]string{"Agent.localUfrag": "param", "Agent.localPwd": "param", "Agent.remoteUfrag": `""`, "Agent.remotePwd": `""`,
-			"Agent.gatheringState": "GatheringStateNew", "Agent.checklist": "fresh", "Agent.pairsByID": "fresh", "Agent.pendingBindingRequests": "fresh"}
-		got := map[string]string{}
-		walkBody(rs, func(n ast.Node) bool {
-			as, ok := n.(*ast.AssignStmt)
-			if !ok || len(as.Lhs) != len(as.Rhs) {
-				return true
-			}
-			for i, l := range as.Lhs {
-				fv := p.FieldOf(l)
-				if fv == nil {
-					continue
-				}
-				v := "?"
-				rhs := unparen(as.Rhs[i])
-				switch x := rhs.(type) {
-				case *ast.Ident:
-					if _, isVar := p.ObjOf(x).(*types.Var); isVar {
-						v = "param"
-					} else if c := p.constName(x); c != "" {
-						v = c
-					}
-				case *ast.BasicLit:
-					v = x.Value
-				case *ast.CallExpr:
-					if p.CalleeName(x) == "builtin.make" {
-						fresh := len(x.Args) == 1
-						if len(x.Args) == 2 {
-							c, _ := p.ConstVal(x.Args[1])
-							fresh = c == "0"
-						}
-						if fresh {
-							v = "fresh"
-						}
-					}
-				}
-				got[p.FieldName(fv)] = v
-			}
-			return true
-		})
-		for f, w := range want {
-			r.Check(got[f] == w, "Restart resets "+f, p.Pos(rs.Body.Pos()), "= "+w, "Restart sets "+f+" to "+orQ(got[f])+", expected "+w+": state of the previous generation survives")
-		}
-		for _, need := range []string{"ice.Agent.deleteAllCandidates", "ice.Agent.setSelector", "ice.Agent.removeUfragFromMux"} {
-			r.Check(len(p.CallsTo(rs, false, need)) > 0, "Restart calls "+strings.TrimPrefix(need, "ice.Agent."), p.Pos(rs.Body.Pos()), "present", "Restart no longer calls "+need)
-		}
-		unsel := false
-		for _, c := range p.CallsTo(rs, false, "ice.Agent.setSelectedPair") {
-			if len(c.Args) == 1 && p.isNilExpr(c.Args[0]) {
-				unsel = true
-			}
-		}
-		r.Check(unsel, "Restart clears the selection", p.Pos(rs.Body.Pos()), "setSelectedPair(nil)", "Restart leaves the previous generation's selected pair in place")
-		// coverage of mutable collection fields
-		_, ast_ := p.StructType("Agent")
-		eff := p.Effects(rs)
-		r.Except("R2.6: Agent.startedCandidates (entries leave via candidate close -> unregister), Agent.lastKnownInterfaces (interface monitor state, not generation-scoped), Agent.urls/networkTypes/turnTransportProtocols/candidateTypes/addressRewriteRules (configuration)")
-		skip := map[string]bool{"startedCandidates": true, "lastKnownInterfaces": true, "urls": true, "networkTypes": true, "turnTransportProtocols": true, "candidateTypes": true, "addressRewriteRules": true}
-		for i := 0; ast_ != nil && i < ast_.NumFields(); i++ {
-			fv := ast_.Field(i)
-			switch fv.Type().Underlying().(type) {
-			case *types.Slice, *types.Map:
-			default:
-				continue
-			}
-			if skip[fv.Name()] {
-				continue
-			}
-			// written after construction?
-			mutable := false
-			for wf := range p.WritersOf("Agent." + fv.Name()) {
-				if root := wf.Root().Name; root != "createAgentBase" && root != "newAgentWithConfig" && root != "newAgentFromConfig" {
-					mutable = true
-				}
-			}
-			if !mutable {
-				continue
-			}
-			r.Check(eff.WritesT[fv], "Restart covers mutable collection Agent."+fv.Name(), p.Pos(rs.Body.Pos()), "reset (directly or through a callee)", "Agent."+fv.Name()+" is mutated during a session but not reset by Restart: residue of the previous generation")
-		}
-	}
+	checkRestartWipe(p, r)
 
 	// ---- R2.7 who may reach the handlers ---------------------------------------------------------
 	r.Rule("R2.7", "handleInbound is entered only from the candidate receive path inside a loop task; the selector's response/request handlers only from the two authenticated inbound handlers.", 3)
@@ -517,4 +435,92 @@ func (p *Prog) mentionsObj(n ast.Node, o types.Object) bool {
 		return !found
 	})
 	return found
+}
+
+// checkRestartWipe: Restart ends the generation (shared by C02 R2.6 and C06 R6.5).
+func checkRestartWipe(p *Prog, r *Report) {
+	rs := p.Fn("Agent.Restart$1")
+	if r.Anchor("Restart task", rs != nil) {
+		want := map[string]string{"Agent.localUfrag": "param", "Agent.localPwd": "param", "Agent.remoteUfrag": `""`, "Agent.remotePwd": `""`,
+			"Agent.gatheringState": "GatheringStateNew", "Agent.checklist": "fresh", "Agent.pairsByID": "fresh", "Agent.pendingBindingRequests": "fresh"}
+		got := map[string]string{}
+		walkBody(rs, func(n ast.Node) bool {
+			as, ok := n.(*ast.AssignStmt)
+			if !ok || len(as.Lhs) != len(as.Rhs) {
+				return true
+			}
+			for i, l := range as.Lhs {
+				fv := p.FieldOf(l)
+				if fv == nil {
+					continue
+				}
+				v := "?"
+				rhs := unparen(as.Rhs[i])
+				switch x := rhs.(type) {
+				case *ast.Ident:
+					if _, isVar := p.ObjOf(x).(*types.Var); isVar {
+						v = "param"
+					} else if c := p.constName(x); c != "" {
+						v = c
+					}
+				case *ast.BasicLit:
+					v = x.Value
+				case *ast.CallExpr:
+					if p.CalleeName(x) == "builtin.make" {
+						fresh := len(x.Args) == 1
+						if len(x.Args) == 2 {
+							c, _ := p.ConstVal(x.Args[1])
+							fresh = c == "0"
+						}
+						if fresh {
+							v = "fresh"
+						}
+					}
+				}
+				got[p.FieldName(fv)] = v
+			}
+			return true
+		})
+		for f, w := range want {
+			r.Check(got[f] == w, "Restart resets "+f, p.Pos(rs.Body.Pos()), "= "+w, "Restart sets "+f+" to "+orQ(got[f])+", expected "+w+": state of the previous generation survives")
+		}
+		for _, need := range []string{"ice.Agent.deleteAllCandidates", "ice.Agent.setSelector", "ice.Agent.removeUfragFromMux"} {
+			r.Check(len(p.CallsTo(rs, false, need)) > 0, "Restart calls "+strings.TrimPrefix(need, "ice.Agent."), p.Pos(rs.Body.Pos()), "present", "Restart no longer calls "+need)
+		}
+		unsel := false
+		for _, c := range p.CallsTo(rs, false, "ice.Agent.setSelectedPair") {
+			if len(c.Args) == 1 && p.isNilExpr(c.Args[0]) {
+				unsel = true
+			}
+		}
+		r.Check(unsel, "Restart clears the selection", p.Pos(rs.Body.Pos()), "setSelectedPair(nil)", "Restart leaves the previous generation's selected pair in place")
+		// coverage of mutable collection fields
+		_, ast_ := p.StructType("Agent")
+		eff := p.Effects(rs)
+		r.Except("R2.6: Agent.startedCandidates (entries leave via candidate close -> unregister), Agent.lastKnownInterfaces (interface monitor state, not generation-scoped), Agent.urls/networkTypes/turnTransportProtocols/candidateTypes/addressRewriteRules (configuration)")
+		skip := map[string]bool{"startedCandidates": true, "lastKnownInterfaces": true, "urls": true, "networkTypes": true, "turnTransportProtocols": true, "candidateTypes": true, "addressRewriteRules": true}
+		for i := 0; ast_ != nil && i < ast_.NumFields(); i++ {
+			fv := ast_.Field(i)
+			switch fv.Type().Underlying().(type) {
+			case *types.Slice, *types.Map:
+			default:
+				continue
+			}
+			if skip[fv.Name()] {
+				continue
+			}
+			// written after construction?
+			mutable := false
+			for wf := range p.WritersOf("Agent." + fv.Name()) {
+				if root := wf.Root().Name; root != "createAgentBase" && root != "newAgentWithConfig" && root != "newAgentFromConfig" {
+					mutable = true
+				}
+			}
+			if !mutable {
+				continue
+			}
+			r.Check(eff.WritesT[fv], "Restart covers mutable collection Agent."+fv.Name(), p.Pos(rs.Body.Pos()), "reset (directly or through a callee)", "Agent."+fv.Name()+" is mutated during a session but not reset by Restart: residue of the previous generation")
+		}
+	}
+
 }
